@@ -320,9 +320,10 @@ Proof.
             end = Some nr ->
             nres_nonneg nr /\ forall nd, rle (numa_sum nr nd) (lookup_res nd (numa_avail o st))).
   { intros nr Hnr. destruct (r_hint rq) as [hint|].
-    - destruct (o_cap o) as [|c0 cap0] eqn:Ecap; [discriminate|]. rewrite <- Ecap in *.
+    - assert (Hd : distribute o rq hint (trim o st rq (numa_avail o st)) = Some nr).
+      { revert Hnr. destruct (o_cap o); [discriminate|auto]. }
       destruct (trim_spec o st rq (numa_avail o st) (numa_avail_nonneg o st)) as [T1 T2].
-      destruct (distribute_spec o rq hint _ nr Hh T1 Hnr) as [D1 [D2 _]].
+      destruct (distribute_spec o rq hint _ nr Hh T1 Hd) as [D1 [D2 _]].
       split; [exact D1|]. intros nd. specialize (D2 nd). specialize (T2 nd). unfold rle in *. lia.
     - inversion Hnr; subst. split; [intros e []|]. intros nd. cbn.
       apply (lookup_res_nonneg _ nd (numa_avail_nonneg o st)). }
@@ -349,7 +350,7 @@ Proof.
   destruct (r_bindreq rq).
   - destruct (allocate_cpuset_spec o st rq _ _ HT (A5 eq_refl)) as [C1 [C2 _]].
     split; [split; assumption|exact C2].
-  - rewrite (A4 eq_refl). split; [split; [constructor|exact A2]|intros x []].
+  - split; [split; [rewrite (A4 eq_refl); constructor|exact A2]|rewrite (A4 eq_refl); intros x []].
 Qed.
 
 (* ------------------------------------------------------------------ histories *)
@@ -501,4 +502,43 @@ Proof.
   - exact Hops.
   - split; [exact linv_init|]. intros nd Hnd. cbn.
     destruct (lookup_res_nonneg (o_cap o) nd Hcapnn) as [H1 H2]. unfold r0 in *. cbn in *. lia.
+Qed.
+
+Lemma hist_ledger_exact o ops : wf_opts o -> Forall op_wf ops -> ledger_exact (run o ops).
+Proof. intros Ho Hops. destruct (hist_linv o ops Ho Hops) as [_ [_ [_ H]]]. exact H. Qed.
+
+(* ------------------------------------------------------------------ witnesses *)
+Lemma overshoot_topo_nodup : NoDup (map cid (c_topo (mkCfg overshoot_topo 1 0 true))).
+Proof.
+  cbn [c_topo]. replace (map cid overshoot_topo) with (dedup (map cid overshoot_topo)) by (vm_compute; reflexivity).
+  apply dedup_NoDup.
+Qed.
+
+Lemma overshoot_len : lenZ [4; 5; 6; 7; 12; 13; 20; 21] <> 7.
+Proof. vm_compute. discriminate. Qed.
+
+Lemma ex_opts_wf : wf_opts (mkO overshoot_topo 1 [] true [(0, (8000, 64)); (1, (8000, 64)); (2, (8000, 64))]).
+Proof. split; [exact overshoot_topo_nodup|cbn; lia]. Qed.
+
+Lemma ex_hist_sched :
+  Forall op_sched [OAlloc (mkR 1 4 true 1 false 0 (Some [0; 1]) 4000 8); ORelease 1;
+                   OAlloc (mkR 2 2 true 2 true 1 None 2000 0)].
+Proof.
+  repeat constructor; cbn; auto; try (intros [H|[]]; discriminate); try (intros []).
+Qed.
+
+Lemma ex_aligned : aligned overshoot_topo 8 1 /\ uniform_topo overshoot_topo = true /\ wf_topo overshoot_topo = true.
+Proof.
+  split; [|split; vm_compute; reflexivity].
+  intros _. replace (cpc overshoot_topo) with 2 by (vm_compute; reflexivity). exists 4. reflexivity.
+Qed.
+
+Lemma ex_d1 : distribute1 0 1 8 [(1, 10); (2, 2)] = ([(2, 2); (1, 6)], 0).
+Proof. vm_compute. reflexivity. Qed.
+
+Lemma take_exact_refuted_lemma : exists c avail allocated n bind s,
+  NoDup (map cid (c_topo c)) /\ take_cpus c avail allocated n bind = Some s /\ lenZ s <> n.
+Proof.
+  exists (mkCfg overshoot_topo 1 0 true), overshoot_avail, [], 7, 1, [4; 5; 6; 7; 12; 13; 20; 21].
+  split; [exact overshoot_topo_nodup|]. split; [exact take_overshoot_witness|exact overshoot_len].
 Qed.
